@@ -15,7 +15,7 @@ _ROOT = OneOf(PG, _TRANSL, _XFORM, _LAYERS2)
 
 @contract("nanoemoji.write_font._create_transformed_glyph", props=["C03"])
 class create_transformed_glyph:
-    assumed = True  # ufoLib2 glyph with one component: checked natively by the glyph harness
+    assumed = True  # ufoLib2 glyph with one component: exercised by the end-to-end COLRv0 / glyf picture and outline checks (bounded tier)
     args = {"color_glyph": Opaque("ColorGlyph"), "paint": PG, "transform": AFF}
     returns = Obj(name=Str)
     ensures = {
